@@ -186,6 +186,15 @@ func (ck *Check) listerWiring(rule string) {
 						}
 					}
 					if g == FFalse {
+						// the value can still be this constructor (e.g. a choice carried around the loop
+						// from an earlier group): then nothing ties the choice to the group being built
+						for _, fv := range ck.P.funcValuesOf(ci.Common().Value) {
+							if fv == want {
+								n++
+								ck.fail(rule, ck.P.siteKey(ci)+"/"+want.Name()+"/default-choice", ck.P.instrPos(ci), funcID(bc.Fn), "the default filter is used iff the group is named \"default\"", "the constructor called is "+ci.Common().Value.String()+", which can be "+want.Name()+" under a condition that is not a test of this group's name",
+									"a group is wired with the pod filter chosen for another group")
+							}
+						}
 						continue
 					}
 					pickGuard[ci] = g
